@@ -4,8 +4,8 @@ Hand model of ppci/opt/constantfolding.py (import-free).
 Python `int` ↦ `Int`.  Python operators are modelled with Python's semantics:
 `%` is floor-mod (`Int.fmod`, `ZeroDivisionError` for 0), `abs` is `|·|`, `<<`/`>>`
 raise `ValueError` for a negative count, `a << b = a * 2^b`, `a >> b = ⌊a / 2^b⌋`.
-The model follows the source after the two `fix:` commits recorded in
-findings/C38.json (`%` evaluated by `irem`, chain constants passed through `cast`).
+The model follows the source after the `fix:` commits recorded in findings/C38.json
+(`%` evaluated by `irem`, chain constants passed through `cast`, undefined operations left unfolded).
 `value.bit_length()` ↦ `bitLength` (0 for 0, else ⌊log2⌋+1).
 The SSA graph below an instruction is viewed as an expression tree (`Expr`):
 operands are followed through their `a`/`b`/`src` pointers exactly as
@@ -161,30 +161,43 @@ inductive Action
     modelled, the Python `cast` returns the plain sum) -/
 def chainConst (ty : Typ) (va vb : Int) : Int := cast (va + vb) ty
 
+/-- `try_eval_const`: `None` when `eval_const` raises ZeroDivisionError / ValueError (/ OverflowError,
+    which only float→int casts raise and is not modelled); other exceptions propagate -/
+def tryEvalConst (e : Expr) : Except Err (Option (Typ × Int)) :=
+  match evalConst e with
+  | .ok r => .ok (some r)
+  | .error .ZeroDivisionError => .ok none
+  | .error .ValueError => .ok none
+  | .error e => .error e
+
 /-- body of the loop in `ConstantFolder.on_block` for one instruction -/
 def onInstr (ins : Expr) : Except Err Action :=
   match ins with
   | .const _ _ => .ok .skip
   | _ =>
     if isConst ins then
-      match evalConst ins with
-      | .ok (ty, v) => .ok (.replace ty v)
+      match tryEvalConst ins with
       | .error e => .error e
+      | .ok none => .ok .keep                        -- undefined for these operands: `continue`
+      | .ok (some (ty, v)) => .ok (.replace ty v)
     else
       match ins with
       | .binop ty op (.binop _ op1 y c1) c2 =>
         if (op1 == "+" && isConst c1 && op == "+" && isConst c2)
             || (op1 == "-" && isConst c1 && op == "-" && isConst c2) then
-          match evalConst c1 with
+          match tryEvalConst c1 with
           | .error e => .error e
-          | .ok (ta, va) =>
-            match evalConst c2 with
+          | .ok a =>
+            match tryEvalConst c2 with
             | .error e => .error e
-            | .ok (tb, vb) =>
-              if ta ≠ tb then .error .AssertionError     -- assert a.ty is b.ty
-              else if ty ≠ ta then .error .AssertionError     -- assert instruction.ty is cn.ty
-              else if ty ≠ y.ty then .error .AssertionError   -- assert instruction.ty is instruction.a.ty
-              else .ok (.rechain y ta (chainConst ta va vb))
+            | .ok b =>
+              match a, b with
+              | some (ta, va), some (tb, vb) =>
+                if ta ≠ tb then .error .AssertionError     -- assert a.ty is b.ty
+                else if ty ≠ ta then .error .AssertionError     -- assert instruction.ty is cn.ty
+                else if ty ≠ y.ty then .error .AssertionError   -- assert instruction.ty is instruction.a.ty
+                else .ok (.rechain y ta (chainConst ta va vb))
+              | _, _ => .ok .keep                    -- `if a is None or b is None: continue`
         else .ok .keep
       | _ => .ok .keep
 
